@@ -51,6 +51,15 @@ fn needs_more_input_locked(shell: &Shell<impl brush_core::ShellExtensions>, inpu
     }
 }
 
+/// Verification hook: exposes the completeness decision used by the input backends.
+#[cfg(feature = "verif-hooks")]
+pub fn verif_needs_more_input(
+    shell: &Shell<impl brush_core::ShellExtensions>,
+    input: &str,
+) -> bool {
+    needs_more_input_locked(shell, input)
+}
+
 /// Returns whether the given input ends with a backslash-newline acting as a line
 /// continuation.
 fn ends_with_line_continuation(
